@@ -267,6 +267,31 @@ PROPS = {
                        "after all tasks ended no operation is left pending in the kernel and the runtime never blocks in io_uring_enter with nothing that could wake it."),
         "level_note": "Covers drop / token / late token / fail-fast / timeout routes against UnixStream recv, pipe read, TcpListener accept and read_multi. Both drivers. Connect and poll-fd victims are not covered.",
     },
+    "C08": {
+        "title": "File and pipe I/O matches the OS, identically on every driver",
+        "engine": "K",
+        "package": "check-k",
+        "bin": "check-k",
+        "design_ref": "§4, §7 C08",
+        "technique": "deterministic simulation with a reference model: generated programs of file and directory operations run through compio-fs on the driver drawn for the run (io_uring on the simulated ring; io_uring with a generated subset of the optional file opcodes reported as unsupported, so that fallback entries and the blocking pool are used; the polling driver, where file operations go to the pool) and, operation by operation, through the OS's synchronous calls (std::fs / pread / pwritev ...) on a twin tree; results (counts, bytes, buffer shape, errno) compared after every step, the two trees compared at the end; several tasks on their own sub-trees keep operations of different kinds in flight; kernel faults (tiny rings, lazy/reordered completions, partial submits); choice-sequence minimisation and replay; a run that kills its process is reported with a replay that regenerates it from its seed",
+        "tiers": {
+            "quick": {"runs": 120_000, "time_limit_s": 60},
+            "thorough": {"runs": 30_000_000, "time_limit_s": 1500},
+        },
+        "rule": K_RULE,
+        "real": K_REAL + ["the file system (tmpfs/ext4 under the temporary directory) through real system calls on both sides"],
+        "stub": K_STUB,
+        "assumptions": K_ASSUME + [
+            "the reference is the same kernel's synchronous call on a twin file created by the same sequence of operations; regular files never see short transfers here (the simulated kernel shortens stream transfers only)",
+            "errors are compared by errno; errors std raises before any system call (invalid open options) are compared by kind",
+            "only opcodes outside the io_uring driver's required basic set (read, write, readv, writev, fsync...) are ever reported unsupported: without the basic set compio chooses the polling driver",
+            "whole-file reads of sparse multi-gigabyte files are skipped; their content is compared through their data extents",
+            "pipes are covered by C14's stream scenario, not here",
+        ],
+        "level_text": ("Seeded exploration of file/directory programs: open options (read/write/create/create_new/truncate/append), positional reads and writes in every buffer shape (exact, spare capacity, pre-initialised prefix, sub-slice, boxed, vectored with empty segments, managed), offsets 0 .. beyond 8 GiB, lengths 0 .. pages, set_len, sync, metadata, permissions, "
+                       "path utilities (write, read, rename, remove, create_dir(_all), remove_dir, hard_link, symlink, metadata, symlink_metadata). After every operation compio's result equals the OS call's; at the end the tree written through compio is identical to the twin; identical on io_uring, io_uring with fallbacks, and polling."),
+        "level_note": "The Dir (dirfd) API, named pipes and stdio are not exercised. Timestamps are not compared.",
+    },
     "C09": {
         "title": "Timers never fire early and always fire",
         "engine": "K",
